@@ -105,6 +105,8 @@ where
     S: PartialSource,
 {
     fn try_get_or_create(&self, name: &str) -> Option<sync::Arc<dyn Renderable>> {
+        #[cfg(feature = "verif-hooks")]
+        let _sim = crate::verif::lock_scope(&self.cache as *const _ as usize, "lazy.cache");
         let mut cache = self.cache.lock().expect("not to be poisoned and reused");
         if let Some(result) = cache.get(name) {
             result.as_ref().ok().cloned()
@@ -121,6 +123,8 @@ where
     }
 
     fn get_or_create(&self, name: &str) -> Result<sync::Arc<dyn Renderable>> {
+        #[cfg(feature = "verif-hooks")]
+        let _sim = crate::verif::lock_scope(&self.cache as *const _ as usize, "lazy.cache");
         let mut cache = self.cache.lock().expect("not to be poisoned and reused");
         if let Some(result) = cache.get(name) {
             result.clone()
